@@ -4,6 +4,7 @@
 package kit
 
 import (
+	"os"
 	"encoding/binary"
 	"hash/fnv"
 	"math/rand/v2"
@@ -20,7 +21,22 @@ type Chooser struct {
 	isRepl bool
 	log    []uint32
 	limit  int // maximum log length in generate mode (0 = unlimited); beyond it everything is 0
+	// journal, when set, receives every choice the moment it is made (crash probe: the process
+	// is expected to die before it can hand its log back)
+	journal *os.File
 }
+
+func (c *Chooser) record(v uint32) {
+	c.log = append(c.log, v)
+	if c.journal != nil {
+		var b [4]byte
+		binary.LittleEndian.PutUint32(b[:], v)
+		c.journal.Write(b[:])
+	}
+}
+
+// SetJournal makes the chooser write every choice to f as it is made.
+func (c *Chooser) SetJournal(f *os.File) { c.journal = f }
 
 // NewGen returns a generating chooser seeded from (seed, stream).
 func NewGen(seed uint64, stream uint64) *Chooser {
@@ -74,7 +90,7 @@ func (c *Chooser) Intn(label string, n int) int {
 			v = c.rng.IntN(n)
 		}
 	}
-	c.log = append(c.log, uint32(v))
+	c.record(uint32(v))
 	return v
 }
 
@@ -94,7 +110,7 @@ func (c *Chooser) Chance(label string, num, den int) bool {
 	} else if c.rng.IntN(den) < num {
 		v = 1
 	}
-	c.log = append(c.log, uint32(v))
+	c.record(uint32(v))
 	return v == 1
 }
 
@@ -135,7 +151,7 @@ func (c *Chooser) Weighted(label string, weights []int) int {
 			r -= w
 		}
 	}
-	c.log = append(c.log, uint32(v))
+	c.record(uint32(v))
 	return v
 }
 
